@@ -72,18 +72,25 @@ def _expand(func, expr, depth=2):
 def _enabled_branches(upd):
     """(if-node, enabled body, disabled body) of the 'enable filters' test,
     whatever its polarity"""
-    en = [n for n in walk(upd) if isinstance(n, ast.If)
-          and "enable filters" in _expand(upd, n.test)]
-    if not en:
+    cands = [n for n in walk(upd) if isinstance(n, ast.If)
+             and "enable filters" in _expand(upd, n.test)]
+    en = None
+    for n in cands:
+        t = n.test
+        neg = isinstance(t, ast.UnaryOp) and isinstance(t.op, ast.Not)
+        core = t.operand if neg else t
+        # the branch that combines the filters tests the switch alone; other
+        # statements mentioning the switch (short-cuts, …) are judged by the
+        # path rules
+        if isinstance(core, (ast.Subscript, ast.Name)) and any(
+                isinstance(x, ast.BinOp) and isinstance(x.op, ast.BitAnd)
+                for x in ast.walk(n)):
+            en = (n, neg)
+            break
+    if en is None:
         raise AnalysisError("Filter.update: 'enable filters' branch lost")
-    en = en[0]
-    t = en.test
-    neg = isinstance(t, ast.UnaryOp) and isinstance(t.op, ast.Not)
-    core = t.operand if neg else t
-    if not (isinstance(core, (ast.Subscript, ast.Name))):
-        raise AnalysisError("Filter.update: unrecognised 'enable filters' "
-                            "test `" + txt(t) + "`")
-    return (en, en.orelse, en.body) if neg else (en, en.body, en.orelse)
+    n, neg = en
+    return (n, n.orelse, n.body) if neg else (n, n.body, n.orelse)
 
 
 def _assigned_from(func, pred):
@@ -901,6 +908,7 @@ MUTANTS = [
     ("short-cut snapshots without recomputing (seeded C03_6)", FILT,
      ("        # 1. Invalid filters\n",
       "        if not cfg_cur[\"enable filters\"] and not force:\n"
+      "            # nothing to compute\n"
       "            self._get_rw_array(\"all\")[:] = True\n"
       "            self._old_config = rtdc_ds.config.copy()[\"filtering\"]\n"
       "            return\n\n        # 1. Invalid filters\n"), "R3.1"),
